@@ -47,7 +47,12 @@ func nullCountStats(leaf *pqfile.Node, defs []uint8, vals []pqfile.Val, rng *ran
 			nulls++
 		}
 	}
-	fs := []thriftc.Field{thriftc.F(3, thriftc.I64(nulls))}
+	// every member of Statistics is optional: null_count is left out of half of the
+	// structs (only min/max, only distinct_count, or an empty struct remain)
+	var fs []thriftc.Field
+	if rng.Intn(2) == 0 {
+		fs = append(fs, thriftc.F(3, thriftc.I64(nulls)))
+	}
 	if rng.Intn(2) == 0 && len(vals) > 0 && leaf.Type != pqfile.TBoolean {
 		// correct min/max in the column order
 		mn, mx := vals[0], vals[0]
@@ -356,6 +361,23 @@ func observeForeign(c *Ctx, fc *foreignCase) bool {
 					if strings.Contains(kinds, "BR") || strings.Contains(kinds, "RB") {
 						c.Out.Count("streams_mixing_run_kinds", 1)
 					}
+				}
+			}
+		}
+	}
+	for _, rg := range d.RowGroups {
+		for _, ch := range rg.Chunks {
+			for _, p := range ch.Pages {
+				switch {
+				case p.Stats == nil:
+					c.Out.Count("pages_without_statistics", 1)
+				case p.Stats.NullCount == nil:
+					c.Out.Count("pages_with_statistics_but_no_null_count", 1)
+					if ch.Leaf.Type == pqfile.TBoolean && ch.Leaf.MaxDef > 0 && len(ch.Pages) > 1 {
+						c.Out.Count("multipage_optional_bool_chunks_without_null_count", 1)
+					}
+				default:
+					c.Out.Count("pages_with_null_count", 1)
 				}
 			}
 		}
